@@ -262,3 +262,23 @@ func (w *World) CheckAgainst(ref *Reference, txid ltx.TXID) *Mismatch {
 }
 
 var zeroTime = timeZero()
+
+// ZeroTime is the zero time.Time (no timestamp target).
+var ZeroTime = zeroTime
+
+// InspectFile opens a (restored) database file and returns its version stamp,
+// logical digest and integrity_check result.
+func InspectFile(ctx context.Context, path string) (int64, string, string, error) {
+	db, err := sql.Open("sqlite", fmt.Sprintf("file:%s?_pragma=busy_timeout(1000)", path))
+	if err != nil {
+		return 0, "", "", err
+	}
+	defer db.Close()
+	db.SetMaxOpenConns(1)
+	var ic string
+	if err := db.QueryRowContext(ctx, `PRAGMA integrity_check`).Scan(&ic); err != nil {
+		return 0, "", "", fmt.Errorf("integrity_check: %w", err)
+	}
+	v, d, err := Digest(ctx, db)
+	return v, d, ic, err
+}
